@@ -332,13 +332,14 @@ def parsePool (id net gw dns lease vlan cls : String) : Option PoolCfg :=
     let pl ← pl.toNat?
     let gw ← parseIp gw
     let dns ← parseDns dns
-    let lease ← lease.toNat?
+    -- `<n>` seconds or `<n>ms`
+    let leaseMs ← (if lease.endsWith "ms" then (lease.dropRight 2).toNat? else lease.toNat?.map (· * 1000))
     let vlan ← vlan.toNat?
     let cls ← cls.toNat?
     -- the network address as net.ParseCIDR masks it
     let mask : UInt32 := if pl == 0 then 0 else if pl ≥ 32 then 0xFFFFFFFF else (0xFFFFFFFF : UInt32) <<< UInt32.ofNat (32 - pl)
     pure { id := UInt32.ofNat id, network := n &&& mask, prefixLen := UInt8.ofNat pl, gateway := gw, dns := dns,
-           leaseSecs := UInt32.ofNat lease, vlanId := UInt32.ofNat vlan, clientClass := UInt8.ofNat cls }
+           leaseSecs := UInt32.ofNat (leaseMs / 1000), leaseSubMs := leaseMs % 1000, vlanId := UInt32.ofNat vlan, clientClass := UInt8.ofNat cls }
   | _ => none
 
 /-- resolve `clk=<spec>` (see the harness) -/
